@@ -13,3 +13,24 @@ CHECKS['C01'] = dict(
           'step RIBContents() must equal the fold of the acknowledgements the RIB itself returned. Exhaustive within the depth bound, states deduplicated '
           'by canonical real state (contents, held operations, counters).'),
     note='Bounded depth (quick 4, thorough 6 or budget) and a 2-key-per-kind alphabet; payloads limited to fields that round-trip (payload fidelity is C07); ygot-internal map order not controlled.')
+CHECKS['C02'] = dict(
+    category='model_checking', design_ref='DESIGN.md §3 C02',
+    technique='explicit-state BFS over operation histories + all arrival orders of dependency graphs on the real rib.RIB, resolvability oracle from the reference model',
+    text=('All arrival orders (every permutation prefix, deduplicated) of five dependency graphs of up to 7 operations, plus every mixed history of a 22-letter '
+          'alphabet up to the depth bound, run on the real rib.RIB in both forward-reference modes. Oracles in every state: an ack only when all references are installed in the fold; '
+          'no installed entry dangles (while only Modify/full flush happened); no held operation is resolvable; the verdict of each operation (acked / held / FAILED) equals the '
+          'sequential specification; invalid references are FAILED, never held; nothing is answered twice.'),
+    note='Bounded depth/graph size; held-operation walk order is Go map order of the run (any order is legal for the oracle); 2 network instances.')
+CHECKS['C03'] = dict(
+    category='model_checking', design_ref='DESIGN.md §3 C03',
+    technique='explicit-state BFS over retarget/delete/flush histories on the real rib.RIB; delete verdict compared with referrers counted from installed state',
+    text=('Every history of a 34-letter alphabet biased to reference retargeting (implicit/explicit replace moving a reference, duplicate group members, cross-instance groups, '
+          'partial and full flushes) up to the depth bound; in every reached state the protection of every installed next-hop / group (counter > 0, read through the verif hook) must equal '
+          '"has an installed referrer" computed by scanning RIBContents, and every DELETE verdict must equal that predicate.'),
+    note='Bounded depth (quick 4, thorough 6 or budget); exact counter values are not compared, only what decides a verdict.')
+CHECKS['C16'] = dict(
+    category='model_checking', design_ref='DESIGN.md §3 C16',
+    technique='explicit-state BFS over operation histories on the real rib.RIB with the post-change hook folded into a mirror',
+    text=('Every history of a 22-letter alphabet up to the depth bound, for hook registration before and after creation of the network instance: folding the notifications '
+          '(ADD sets, DELETE removes, nil DELETE is a no-op) must reproduce RIBContents() in every network instance after every step, for Modify-style calls, held-operation resolution and Flush.'),
+    note='Post-change hook only at this tier; the resolved-entry hook (goroutine) is exercised by the scheduler-based tier when built. Bounded depth.')
